@@ -45,7 +45,8 @@ TRUSTED = ["CasADi: `ca.substitute`, `Function.expand`, evaluation of MX functio
            "Python's `re` for `eliminable_variable_expression` (the model receives the list of matching names)"]
 ASSUMPTIONS = ["scalar models (vector expansion is property C18); non-finite constants do not occur in equations",
                "elimination of a differentiated state through eliminable_variable_expression is outside the model (generator: algebraic variables only)",
-               "reduce_affine_expression is covered by the direct oracle only (its result is a vector expression)",
+               "reduce_affine_expression is modelled row by row (`reduceAffine`, Jacobian = symbolic derivative); the model's rows are "
+               "compared with the real collapsed residual functions at exact points",
                "the generic alias test is sound only for equations that determine the tested symbol (affine with non-zero coefficient / bijective): "
                "the property's own precondition, hypothesis `GzOk`/`InjIn` of the theorems"]
 
